@@ -71,6 +71,13 @@ def render_quadratic(rng, terms, normal):
     for m, c in terms:
         if len(m) == 2:
             r, cc = m
+            if not normal and r != cc and rng.random() < 0.25:
+                # non-symmetric pair of entries (r,c) and (c,r): two different positions
+                a = dyadic(rng, 4, 1)
+                rows += [r, cc]
+                cols += [cc, r]
+                vals += [f64(a), f64(c - a)]
+                continue
             if not normal and rng.random() < 0.5:
                 r, cc = cc, r
             rows.append(r)
